@@ -86,6 +86,13 @@ def Ty.isMagic : Ty → Bool
   | .magic _ => true
   | _ => false
 
+/-- hand-written codecs whose round-trip lemma (`CodecOK`) is proved in TongoProofs/Lemmas/TlbPrims.lean; the types
+that contain one of the others are pinned as not covered by the generic theorem (harness/tlbx/nonwf.go) -/
+def Prim.proved : Prim → Bool
+  | .unary | .any | .varUint _ | .bigUint _ | .bigInt _ | .grams | .signedCoins | .fixedText | .anycast
+  | .msgAddress | .accountStatus | .accStatusChange | .computeSkipReason => true
+  | _ => false
+
 def Prim.wf : Prim → Bool
   | .varUint n => 1 ≤ n && n ≤ 32
   | .bigUint n => 1 ≤ n && n ≤ 1023
@@ -97,8 +104,6 @@ def wfRefOf (t : Ty) (inl : Bool) : Bool :=
   match t with
   | .cell => true
   | .ptr _ .cell => true
-  | .prim .w5Actions => true
-  | .ptr _ (.prim .w5Actions) => true
   | _ => inl
 
 mutual
@@ -114,13 +119,15 @@ def wfb (env : Env) : Ty → Bool
   | .sum cs =>
     let tags := cs.tags
     tags.all (·.isSome) && (tags.filterMap id).all Tag.ok && prefixFree (tags.filterMap id) && wfCtors env cs
-  | .named id => (env id).isSome
+  | .named id => (match env id with
+    | some (.struct _) | some (.sum _) => true
+    | _ => false)
   | .magic _ => false                    -- only as a plainly tagged struct field (see `wfFields`)
   | .maybe t => wfb env t
   | .either l r => wfb env l && wfb env r
   | .eitherRef t => wfb env t
   | .refT t => wfRefOf t (wfb env t)
-  | .prim p => p.wf && p != .w5Actions
+  | .prim p => p.wf && p.proved
   | .vmStack _ => false                  -- decode returns the reversed list: see `vmstack_convention`
   | .dictE _ => true
   | .encErr _ => true
@@ -195,45 +202,77 @@ def Prim.inDom (p : Prim) (v : Val) : Bool :=
     cellOk c && 0 ≤ a && a ≤ b && 0 ≤ x && x ≤ y
   | _, _ => false
 
+/-- a boc.Cell held through a pointer (`*boc.Cell`) must not be a library cell: the decoder refuses those -/
+def ptrCellOk (t : Ty) (x : Val) : Bool :=
+  match t, x with
+  | .cell, .cell c => c.ty != tyLibrary
+  | _, _ => true
+
 mutual
 /-- the value is in the domain of the type: it fits the TL-B widths and the Go representation -/
 def inDom (env : Env) : Nat → Ty → Val → Bool
   | 0, _, _ => false
   | fuel + 1, T, v =>
-    match T, v with
-    | .uint n, .int i => 0 ≤ i && i < 2 ^ n
-    | .int n, .int i => -(2 ^ (n - 1)) ≤ i && i < 2 ^ (n - 1)
-    | .bool, .bool _ => true
-    | .bytes n, .bytes bs => bs.length == n
-    | .cell, .cell c => cellOk c
-    | .ptr _ t, .cons x .nil => inDom env fuel t x
-    | .struct fs, v => inDomFields env fuel fs v
-    | .sum cs, .cons (.sym name) (.cons x .nil) =>
-      name != "" && (match cs.find name with
-        | some (_, t) => inDom env fuel t x
-        | none => false)
-    | .named id, v => (match env id with
+    match T with
+    | .uint n => (match v with
+      | .int i => 0 ≤ i && i < 2 ^ n
+      | _ => false)
+    | .int n => (match v with
+      | .int i => -(2 ^ (n - 1)) ≤ i && i < 2 ^ (n - 1)
+      | _ => false)
+    | .bool => (match v with
+      | .bool _ => true
+      | _ => false)
+    | .bytes n => (match v with
+      | .bytes bs => bs.length == n
+      | _ => false)
+    | .cell => (match v with
+      | .cell c => cellOk c
+      | _ => false)
+    | .ptr _ t => (match v with
+      | .cons x .nil => inDom env fuel t x && ptrCellOk t x
+      | _ => false)
+    | .struct fs => inDomFields env fuel fs v
+    | .sum cs => (match v with
+      | .cons (.sym name) (.cons x .nil) =>
+        name != "" && (match cs.find name with
+          | some (_, t) => inDom env fuel t x
+          | none => false)
+      | _ => false)
+    | .named id => (match env id with
       | some t => inDom env fuel t v
       | none => false)
-    | .maybe _, .none => true
-    | .maybe t, .cons x .nil => inDom env fuel t x
-    | .either l r, .cons (.sym side) (.cons x .nil) =>
-      if side == "R" then inDom env fuel r x else side == "L" && inDom env fuel l x
-    | .eitherRef t, .cons (.sym side) (.cons x .nil) => (side == "R" || side == "L") && inDom env fuel t x
-    | .refT t, v => inDom env fuel t v
-    | .prim p, v => p.inDom v
-    | .dictE _, .nil => true
-    | .encErr _, _ => true
-    | _, _ => false
+    | .maybe t => (match v with
+      | .none => true
+      | .cons x .nil => inDom env fuel t x
+      | _ => false)
+    | .either l r => (match v with
+      | .cons (.sym side) (.cons x .nil) =>
+        if side == "R" then inDom env fuel r x else side == "L" && inDom env fuel l x
+      | _ => false)
+    | .eitherRef t => (match v with
+      | .cons (.sym side) (.cons x .nil) => (side == "R" || side == "L") && inDom env fuel t x
+      | _ => false)
+    | .refT t => inDom env fuel t v
+    | .prim p => p.inDom v
+    | .dictE _ => (match v with
+      | .nil => true
+      | _ => false)
+    | .encErr _ => true
+    | _ => false
+/-- domain of one struct field (mirrors the fuel use of `encodeField`) -/
+def inDomField (env : Env) : Nat → FieldTag → Ty → Val → Bool
+  | 0, _, _, _ => false
+  | fuel + 1, ft, t, v =>
+    match ft, t, v with
+    | _, .magic _, .magic => true
+    | .maybe, _, .none => true
+    | .maybeRef, _, .none => true
+    | _, t, v => inDom env fuel t v
 def inDomFields (env : Env) : Nat → Fields → Val → Bool
   | 0, _, _ => false
   | _ + 1, .nil, .nil => true
-  | fuel + 1, .cons _ ft t rest, .cons v vs =>
-    (match ft, t, v with
-      | _, .magic _, .magic => true
-      | .maybe, _, .none => true
-      | .maybeRef, _, .none => true
-      | _, t, v => inDom env fuel t v) && inDomFields env fuel rest vs
+  | fuel + 1, .cons _ ft t rest, .cons v vs => inDomField env fuel ft t v && inDomFields env fuel rest vs
   | _ + 1, _, _ => false
 end
 
